@@ -415,7 +415,16 @@ def _validate_return_to(url: str, allowed_origins: frozenset[str] = frozenset())
     """
     if not url or len(url) > 2048:
         return ""
-    parsed = urlparse(url)
+    # A browser treats "\" as "/" in an http(s) URL, so it ends the authority
+    # where ``urlparse`` keeps reading: "http://evil.com\@localhost/" is
+    # ``evil.com`` to the browser and ``localhost`` to ``urlparse``.
+    if "\\" in url:
+        return ""
+    try:
+        parsed = urlparse(url)
+        port = parsed.port
+    except ValueError:
+        return ""
     if parsed.scheme not in ("http", "https"):
         return ""
     if not parsed.netloc:
@@ -424,15 +433,15 @@ def _validate_return_to(url: str, allowed_origins: frozenset[str] = frozenset())
     hostname = parsed.hostname or ""
     if _is_localhost(hostname) and parsed.scheme == "http":
         return url
-    # Check against allowlist (scheme + host, ignoring path)
+    # Check against the allowlist.  An origin is scheme + host + port: an
+    # explicit non-default port is a different origin and must be listed as such.
     origin = f"{parsed.scheme}://{parsed.hostname}"
-    if origin in allowed_origins:
-        return url
-    # Also try with explicit port
-    if parsed.port:
-        origin_with_port = f"{parsed.scheme}://{parsed.hostname}:{parsed.port}"
-        if origin_with_port in allowed_origins:
+    default_port = 443 if parsed.scheme == "https" else 80
+    if port is None or port == default_port:
+        if origin in allowed_origins or f"{origin}:{default_port}" in allowed_origins:
             return url
+    elif f"{origin}:{port}" in allowed_origins:
+        return url
     return ""
 
 
